@@ -174,6 +174,12 @@ func (p Proxy) ServeHTTP(w http.ResponseWriter, r *http.Request) (int, error) {
 		return true
 	}
 
+	// every attempt must start from the request as it was prepared above: the
+	// director and the header rules below modify the URL and the header of
+	// outreq, and would otherwise be applied again on top of their own result
+	attemptURL, attemptHeader := *outreq.URL, outreq.Header
+	firstAttempt := true
+
 	var backendErr error
 	for {
 		// since Select() should give us "up" hosts, keep retrying
@@ -191,6 +197,16 @@ func (p Proxy) ServeHTTP(w http.ResponseWriter, r *http.Request) (int, error) {
 		if rr, ok := w.(*httpserver.ResponseRecorder); ok && rr.Replacer != nil {
 			rr.Replacer.Set("upstream", host.Name)
 		}
+
+		if !firstAttempt {
+			u := attemptURL
+			outreq.URL = &u
+		}
+		if host.UpstreamHeaders != nil || !firstAttempt {
+			outreq.Header = make(http.Header)
+			copyHeader(outreq.Header, attemptHeader)
+		}
+		firstAttempt = false
 
 		proxy := host.ReverseProxy
 
